@@ -46,6 +46,20 @@ theorem opset_rule (supported : List Int) (mp : ModelProtoM) (ps : List Decoded)
   · intro h; simp [List.contains_iff_mem, h]
   · intro h; simp [List.contains_iff_mem, h]
 
+-- non-vacuity: a model with two initializers (a 2×3 FLOAT in `float_data`, an INT64 vector in `int64_data`)
+-- that decode, importing the opsets 11, 13 and 9; both inner implications are used
+private def nv_mp : ModelProtoM :=
+  { initializers := [{ dataType := 1, dims := [2, 3], floatData := [1065353216, 0, 2143289344, 4286578688, 1, 2147483648] },
+                     { dataType := 7, dims := [2], int64Data := [-1, 5] }],
+    opsetVersions := [11, 13, 9] }
+private def nv_ps : List Decoded :=
+  [⟨.f32, [2, 3], [1065353216, 0, 2143289344, 4286578688, 1, 2147483648]⟩, ⟨.i64, [2], [18446744073709551615, 5]⟩]
+example : (opsetOf nv_mp.opsetVersions ∈ [13] → newModel [13] nv_mp = .ok (nv_ps, opsetOf nv_mp.opsetVersions)) ∧
+    (opsetOf nv_mp.opsetVersions ∉ [13] → newModel [13] nv_mp = .error .unsupportedOpset) :=
+  opset_rule [13] nv_mp nv_ps (by decide)
+example : newModel [13] nv_mp = .ok (nv_ps, 13) := (opset_rule [13] nv_mp nv_ps (by decide)).1 (by decide)
+example : newModel [12, 14] nv_mp = .error .unsupportedOpset := (opset_rule [12, 14] nv_mp nv_ps (by decide)).2 (by decide)
+
 theorem foldl_max_ge (vs : List Int) (a : Int) : a ≤ vs.foldl (fun acc v => if v > acc then v else acc) a := by
   induction vs generalizing a with
   | nil => simp
@@ -84,6 +98,10 @@ theorem not_13_refused (mp : ModelProtoM) (ps : List Decoded)
   apply (opset_rule Generated.supportedOpsets mp ps hd).2
   rw [only_13_supported]
   simpa using h
+
+-- non-vacuity: the same initializers, highest imported opset 14
+example : newModel Generated.supportedOpsets { nv_mp with opsetVersions := [11, 14] } = .error .unsupportedOpset :=
+  not_13_refused { nv_mp with opsetVersions := [11, 14] } nv_ps (by decide) (by decide)
 
 -- non-vacuity
 example : newModel [13] { opsetVersions := [11, 13, 9] } = .ok ([], 13) ∧
